@@ -11,6 +11,11 @@
 //                                                 EXC <what()>     C++ exception (= Python exception through pybind11)
 //                                                 SAN <kind> <pc offsets...>   sanitizer report (ASan / UBSan) or fatal signal
 //                                                 TIMEOUT          wall-clock guard expired
+//   rawdrv --threads <T> <rounds>              same case lines on stdin; every case is decoded once alone (reference) and
+//                                              then by T threads at the same time, <rounds> times each, in ONE process
+//                                              (as RawBinaryReader.arrays does with its thread pool): prints
+//                                              "THREADS OK <n calls>" or "THREADS MISMATCH <case> <thread>"; a sanitizer
+//                                              report (data shared between calls) aborts the process with its report on stderr
 //
 // Every case runs in a forked child.  The word buffer is placed so that it ENDS exactly at the end of a
 // read/write mapping that is followed by 40 GiB of PROT_NONE address space (raw mmap syscall, not intercepted):
@@ -26,6 +31,8 @@
 #include <sstream>
 #include <string>
 #include <vector>
+#include <thread>
+#include <atomic>
 #include <poll.h>
 #include <signal.h>
 #include <sys/mman.h>
@@ -267,9 +274,56 @@ int main( int argc, char** argv ) {
         }
         return 0;
     }
+    if ( argc >= 4 && std::string( argv[1] ) == "--threads" )
+    {
+        int T = atoi( argv[2] ), rounds = atoi( argv[3] );
+        std::vector<std::pair<unsigned, std::vector<uint32_t>>> cases;
+        std::string line;
+        while ( std::getline( std::cin, line ) )
+        {
+            if ( line.empty() ) continue;
+            std::istringstream is( line );
+            unsigned mask;
+            size_t n;
+            is >> mask >> n;
+            std::vector<uint32_t> w( n );
+            for ( size_t i = 0; i < n; i++ )
+            {
+                unsigned long long x;
+                is >> x;
+                w[i] = (uint32_t)x;
+            }
+            cases.emplace_back( mask, std::move( w ) );
+        }
+        std::vector<std::string> ref;
+        for ( auto& c : cases ) ref.push_back( run_one( c.second, c.first, false ) );
+        std::atomic<long> calls{ 0 };
+        std::atomic<int> bad_case{ -1 }, bad_thread{ -1 };
+        std::vector<std::thread> th;
+        for ( int t = 0; t < T; t++ )
+            th.emplace_back( [&, t]() {
+                for ( int r = 0; r < rounds && bad_case.load() < 0; r++ )
+                    for ( size_t k = 0; k < cases.size(); k++ )
+                    {
+                        size_t i = ( k * ( 2 * t + 1 ) + r + t ) % cases.size();   // different threads walk the cases in different orders
+                        std::string got = run_one( cases[i].second, cases[i].first, false );
+                        calls++;
+                        if ( got != ref[i] )
+                        {
+                            bad_case = (int)i;
+                            bad_thread = t;
+                            return;
+                        }
+                    }
+            } );
+        for ( auto& x : th ) x.join();
+        if ( bad_case.load() >= 0 ) printf( "THREADS MISMATCH %d %d\n", bad_case.load(), bad_thread.load() );
+        else printf( "THREADS OK %ld\n", calls.load() );
+        return 0;
+    }
     if ( argc < 2 )
     {
-        fprintf( stderr, "usage: rawdrv <file> [names...] | rawdrv --batch [timeout_s]\n" );
+        fprintf( stderr, "usage: rawdrv <file> [names...] | rawdrv --batch [timeout_s] | rawdrv --threads T rounds\n" );
         return 2;
     }
     std::ifstream f( argv[1], std::ios::binary );
